@@ -255,13 +255,22 @@ def boundary_docs(rng, cls, vg, doc):
     return res[:24]
 
 
+def base_doc(case):
+    """the document the boundary documents of the case were derived from (see gen_cases)"""
+    if not case.get("kws"):
+        return None
+    fd = dict((n, f) for n, f in case["cls"]["fields"])
+    return {"m": [[k, S.to_doc(fd.get(k), v)] for k, v in case["kws"][0] if v is not None]}
+
+
 def changed_keys(base, doc):
     """top-level keys whose value differs between the base document and a boundary document"""
     if not (isinstance(doc, dict) and "m" in doc):
         return None
     a = {json.dumps(k): v for k, v in base["m"]}
     b = {json.dumps(k): v for k, v in doc["m"]}
-    return sorted(json.loads(k) for k in set(a) | set(b) if a.get(k, "<absent>") != b.get(k, "<absent>"))
+    return sorted(json.loads(k) for k in set(a) | set(b)
+                  if json.dumps(a.get(k, "<absent>"), sort_keys=True) != json.dumps(b.get(k, "<absent>"), sort_keys=True))
 
 
 def inline_of(fd):
@@ -893,6 +902,26 @@ def run_impl(case):
             r["deser"] = {"err": C.err_name(e), "msg": str(e)[:1500]}
         bres.append(r)
     res["bdocs"] = bres
+    # the document every boundary document is a variation of (the JSON image of the first instance): if the
+    # Deserializer rejects it, the rejection of a variation says nothing about the varied field
+    bj = base_doc(case)
+    if bj is not None and case["bdocs"]:
+        try:
+            bdoc = dump.load_value(bj, ctx)
+            r = {}
+            if validator is not None:
+                try:
+                    r["valid"] = validator.is_valid(bdoc)
+                except Exception as e:
+                    r["valid_crash"] = f"{type(e).__name__}: {e}"[:200]
+            try:
+                Deserializer(cls).deserialize(copy.deepcopy(bdoc))
+                r["deser"] = {"ok": True}
+            except Exception as e:
+                r["deser"] = {"err": C.err_name(e), "msg": str(e)[:1500]}
+            res["base"] = r
+        except TypeError:
+            pass
     res["search"] = [[p, s, _search(p, s)] for p in sorted(pats) for s in sorted(strings)]
     return res
 
@@ -1358,12 +1387,24 @@ def oracle(case, impl, model):
             fails.append(("validator-crash", "Draft4Validator raised on the emitted schema: " + r["valid_crash"]))
     if stmt_exact(case["cls"]) and impl["wf"] and impl["refs_ok"] and not impl.get("collapsed"):
         names = dict((n, f) for n, f in case["cls"]["fields"])
-        for dj, r, ck in zip(case["bdocs"], impl.get("bdocs", []), case.get("bkeys") or [None] * len(case["bdocs"])):
+        # the base document itself (image of a valid instance) is judged like a boundary document; when the
+        # Deserializer rejects it, a variation that is rejected for the same reason is the same phenomenon and a
+        # variation whose rejection names no field is attributed to the base's culprit, never to the varied field
+        base = impl.get("base") or {}
+        base_rejected = "err" in base.get("deser", {})
+        base_culprit = culprit_field(case["cls"], base["deser"].get("msg", "")) if base_rejected else None
+        todo = list(zip(case["bdocs"], impl.get("bdocs", []), case.get("bkeys") or [None] * len(case["bdocs"])))
+        if base_rejected and base.get("valid"):
+            todo.insert(0, (base_doc(case), base, []))
+        for bi, (dj, r, ck) in enumerate(todo):
             if r.get("valid") and "err" in r.get("deser", {}):
                 # the field(s) in which the document differs from the image of a valid instance
                 msg = r["deser"].get("msg", "")
-                base_ok = bool(impl.get("insts")) and "x" in impl["insts"][0]
+                base_ok = bool(impl.get("insts")) and "x" in impl["insts"][0] and not base_rejected
                 f1 = culprit_field(case["cls"], msg)
+                if base_rejected and r is not base:
+                    if f1 is None or f1 is base_culprit or base_culprit is None:
+                        continue        # reported once, with the base document
                 suspects = [f1] if f1 is not None else \
                     ([names[k] for k in (ck or []) if isinstance(k, str) and k in names] if base_ok else [])
                 if not suspects:
@@ -1377,6 +1418,8 @@ def oracle(case, impl, model):
                         ff.discard("positional-shorter")
                         ff |= inexact_features(suspects[0]["items"], set())
                 ff = [x for x in FEATURE_PRIORITY if x in ff][:1]
+                if len(suspects) == 1 and suspects[0]["k"] in ("oneOf", "notF", "allOf"):
+                    ff = [suspects[0]["k"]]       # the wrapper itself (raw stored input, exactly-one / none-of in JSON terms)
                 why = ff[0] if ff else "unexplained:" + "+".join(sorted({f["k"] for f in suspects}))[:40]
                 fails.append((f"exact:{why}",
                               f"the schema admits a document the Deserializer rejects ({r['deser']['err']}: {r['deser'].get('msg')}): " + json.dumps(dj)[:250]))
@@ -1384,8 +1427,11 @@ def oracle(case, impl, model):
 
 
 def culprit_field(cls, msg):
-    m = re.match(r"^(?:\w+: |\w+\.)?(\w+?)(?:_\d+|_key|_value)?:", msg or "")
     names = dict((n, f) for n, f in cls["fields"])
+    m = re.match(r"^(?:\w+: |\w+\.)?(\w+):", msg or "")       # the whole name first: `f_2` is a field, not `f` + `_2`
+    if m and m.group(1) in names:
+        return names[m.group(1)]
+    m = re.match(r"^(?:\w+: |\w+\.)?(\w+?)(?:_\d+|_key|_value)?:", msg or "")
     if m and m.group(1) in names:
         return names[m.group(1)]
     m = re.match(r"^(\w+):", msg or "")
